@@ -115,7 +115,8 @@ fn insert(root: &mut Node, path: &str, node: Node) {
 
 fn model_tree(bits: u32) -> Node {
     let mut root = Node::Dir(BTreeMap::new());
-    for p in ["a.slice", "b.slice", "sub/c.slice", "pkg/d.slice", "pkg/deep/er/e.slice"] {
+    // (pkg/v2.slice is a DIRECTORY whose name ends in ".slice")
+    for p in ["a.slice", "b.slice", "sub/c.slice", "pkg/d.slice", "pkg/deep/er/e.slice", "pkg/v2.slice/f.slice"] {
         insert(&mut root, p, Node::File(Kind::Slice));
     }
     // (the extension is exactly ".slice": other letter cases are other extensions)
@@ -160,6 +161,7 @@ fn spellings(bits: u32) -> Vec<String> {
         "pkg/UP.SLICE",    // existing, the extension in another letter case: not a Slice file
         "a.slice/x.slice", // nonexistent in a special way: a regular file is used as a directory (ENOTDIR)
         "<root>/sub/../a.slice", // absolute AND not canonical
+        "pkg/v2.slice",    // a directory named like a Slice file (reference: expanded; source: error)
     ];
     if bits & 1 != 0 {
         v.push("pkg/empty");
@@ -837,7 +839,7 @@ impl Family for Lists {
         let (lo, hi) = self.rest_len();
         json!({
             "tree_options": opt_names(bits),
-            "tree": "a.slice b.slice notes.txt sub/c.slice pkg/{d.slice,readme.md,x.slice.bak,deep/{slice,er/e.slice}} + options: empty-dir=pkg/empty/, file-link=sub/la.slice->../a.slice, dir-link=dl->sub, cycle=sub/loop->., dangling-link=pkg/gone.slice->nowhere.slice, invalid-utf8=pkg/deep/bad.slice",
+            "tree": "a.slice b.slice notes.txt sub/c.slice pkg/{d.slice,readme.md,x.slice.bak,v2.slice/f.slice,deep/{slice,er/e.slice}} + options: empty-dir=pkg/empty/, file-link=sub/la.slice->../a.slice, dir-link=dl->sub, cycle=sub/loop->., dangling-link=pkg/gone.slice->nowhere.slice, invalid-utf8=pkg/deep/bad.slice",
             "cwd": "<root> (the tree)",
             "sources": src.iter().map(|&i| sp[alpha[i]].clone()).collect::<Vec<_>>(),
             "references": match first {
@@ -903,7 +905,7 @@ impl Family for Lists {
 }
 
 pub fn meta(m: &mut PropMeta) {
-    m.rule = "REAL directory trees in a private scratch directory, the harness' cwd inside the tree, the real slicec::compile_from_options in-process. Universe (depth 4): a.slice b.slice notes.txt sub/c.slice pkg/{d.slice,readme.md,x.slice.bak,deep/{slice,er/e.slice}} plus every subset of 6 optional entries (2^6 trees): empty directory pkg/empty/, file link sub/la.slice->../a.slice, directory link dl->sub, cycle sub/loop->., dangling link pkg/gone.slice, invalid-UTF-8 file pkg/deep/bad.slice (the 'unreadable' entry; the harness runs as root so permission bits are useless). Argument lists are EVERY (sources, references) pair of lists over the tree's 11-18 path spellings: a.slice ./a.slice sub/../a.slice <abs>/a.slice b.slice sub/c.slice, directories sub ./sub/ . (reference: expanded; source: error), missing.slice, notes.txt, and per option pkg/empty, sub/la.slice, dl/c.slice, dl, sub/loop/c.slice, pkg/gone.slice, pkg/deep/bad.slice. Oracle = reference resolver over the MODEL of the tree (identity = canonical path computed on the model): state.files mapped back to identities must be the source identities in the given order flagged is_source, then the not-yet-present reference identities in argument order with each directory expansion an unordered group, every identity once, every file parsed, no E001; exactly one DuplicateFile at level Warning per repeat within one list (also repeats arising through directory expansion and links) and none across lists; nonexistent / non-.slice / directory-as-source / unreadable reached file => at least one E001 at level Error and nothing parsed (no module, no contents in any returned file). Softenings: when a reference directory expansion runs into the cycle the DuplicateFile count is only bounded from below and an E001 is tolerated (ELOOP depth is the OS's business); a dangling *.slice link below a reference directory may be ignored or reported; repeats of error entries may or may not be warned about; on error scenarios the returned file list is not compared. A case = (tree, sources list, first reference) and runs every reference list with that first element; the real scenario count is extra_counters.scenarios (= steps = validated), per-scenario outcome classes (files returned, DuplicateFile warnings, E001 present) are extra_counters.scenario_class[..]. Non-trivial scenario = the argument lists reach at least one file twice or contain an error entry; non-trivial case = that already holds for the part shared by all its scenarios (sources + first reference); extra_counters.scenarios_nontrivial counts scenarios.";
+    m.rule = "REAL directory trees in a private scratch directory, the harness' cwd inside the tree, the real slicec::compile_from_options in-process. Universe (depth 4): a.slice b.slice notes.txt sub/c.slice pkg/{d.slice,readme.md,x.slice.bak,v2.slice/f.slice,deep/{slice,er/e.slice}} plus every subset of 6 optional entries (2^6 trees): empty directory pkg/empty/, file link sub/la.slice->../a.slice, directory link dl->sub, cycle sub/loop->., dangling link pkg/gone.slice, invalid-UTF-8 file pkg/deep/bad.slice (the 'unreadable' entry; the harness runs as root so permission bits are useless). Argument lists are EVERY (sources, references) pair of lists over the tree's 12-19 path spellings: a.slice ./a.slice sub/../a.slice <abs>/a.slice b.slice sub/c.slice, directories sub ./sub/ . (reference: expanded; source: error), missing.slice, notes.txt, and per option pkg/empty, sub/la.slice, dl/c.slice, dl, sub/loop/c.slice, pkg/gone.slice, pkg/deep/bad.slice. Oracle = reference resolver over the MODEL of the tree (identity = canonical path computed on the model): state.files mapped back to identities must be the source identities in the given order flagged is_source, then the not-yet-present reference identities in argument order with each directory expansion an unordered group, every identity once, every file parsed, no E001; exactly one DuplicateFile at level Warning per repeat within one list (also repeats arising through directory expansion and links) and none across lists; nonexistent / non-.slice / directory-as-source / unreadable reached file => at least one E001 at level Error and nothing parsed (no module, no contents in any returned file). Softenings: when a reference directory expansion runs into the cycle the DuplicateFile count is only bounded from below and an E001 is tolerated (ELOOP depth is the OS's business); a dangling *.slice link below a reference directory may be ignored or reported; repeats of error entries may or may not be warned about; on error scenarios the returned file list is not compared. A case = (tree, sources list, first reference) and runs every reference list with that first element; the real scenario count is extra_counters.scenarios (= steps = validated), per-scenario outcome classes (files returned, DuplicateFile warnings, E001 present) are extra_counters.scenario_class[..]. Non-trivial scenario = the argument lists reach at least one file twice or contain an error entry; non-trivial case = that already holds for the part shared by all its scenarios (sources + first reference); extra_counters.scenarios_nontrivial counts scenarios.";
     m.explanation = "exhaustive enumeration of argument lists over real directory trees (files, links, cycle, dangling link, unreadable file) against a reference resolver on the model tree";
     m.quick_bound = "32 trees without the cycle x all lists of <=2 sources + <=2 references (1.5M compilations); 32 trees with the cycle x <=2 sources + <=1 reference; tree {cycle} x <=2 + <=2 (a directory expansion into the cycle costs ~1 ms, everything else ~45 us)";
     m.thorough_bound = "all 64 trees x <=2 sources + <=2 references; 7 trees without the cycle (no option, each single option, all five) additionally x (3 sources + <=2 references) and (<=2 sources + 3 references); tree {cycle} x 3 sources + <=2 references; the tree with all five non-cycle options x 3 sources + 3 references (so <=3 + <=3 is complete on that tree only: the full product 64 trees x <=3 + <=3 would be ~5e8 compilations); 34M compilations in total";
